@@ -100,3 +100,13 @@ check("C06",
       "Trusted: z3; sqrt axioms; scripted process/criteria as in C05. Bounds: vectors of length <= 2/3; loop histories as C05. Outside: termination for "
       "unbounded answers; alpha regression. Known findings: zero-cost levels get 0 samples; fall-through exit of the loop right after a level is added.",
       TECH, "DESIGN.md section 3 C06")
+
+check("C07",
+      "Bounded model checking of the real standard engine, path manager, Product/Forward/Vanilla/Spot, statistics helpers and control variates "
+      "against a scripted process with symbolic terminal spots: price == df * mean(notional * payoff) over exactly the N handed-out paths per payoff "
+      "component, (mc_stddev)^2 * N == unbiased sample variance per component, spot statistics hold the simulated spots; with one control: adjusted "
+      "mean == mean(Y - b*(X - p_X)) with b* = S_XY/S_XX on biased covariances, equals the raw mean when mean(X) = p_X, and Var(adjusted) = Var(Y) - "
+      "S_XY^2/S_XX <= Var(Y) (cross-multiplied polynomial identities).",
+      "Trusted: z3; scripted process (public Process interface); np.cov/np.std replaced by their definitions; sqrt axioms. Bounds: N <= 3/4, payoff "
+      "dimension <= 2, one control. Outside: >= 2 controls, vector payoffs with controls, worker pools.",
+      TECH, "DESIGN.md section 3 C07")
